@@ -181,9 +181,12 @@ type SimPool struct {
 	// Fail[method] = error to return for the next N calls
 	FailNext map[string]int
 	FailWith map[string]error
-	InFlight int
-	ConnectN int
-	UpdateN  int
+	// SilentNext[method] = number of upcoming calls that are never answered: the call returns only when its
+	// context ends (a reply lost on the way, a pool that is stuck), as a remote call without reply does
+	SilentNext map[string]int
+	InFlight   int
+	ConnectN   int
+	UpdateN    int
 }
 
 // RPCError makes an error with a JSON-RPC code, as the real transport delivers pool errors.
@@ -240,7 +243,23 @@ func (p *SimPool) Connect(ctx context.Context, req pool.ConnectRequest) (*pool.C
 	return &pool.ConnectResponse{PoolVersion: "sim"}, nil
 }
 
+func (p *SimPool) silent(method string) bool {
+	p.mu.Lock()
+	defer p.mu.Unlock()
+	if p.SilentNext[method] > 0 {
+		p.SilentNext[method]--
+		return true
+	}
+	return false
+}
+
 func (p *SimPool) Update(ctx context.Context, req pool.UpdateRequest) (*pool.UpdateResponse, error) {
+	if p.silent("Update") {
+		p.S.Fault("pool_never_answers")
+		p.rec(PoolCall{Method: "Update", Update: req, Err: context.DeadlineExceeded})
+		<-ctx.Done()
+		return nil, ctx.Err()
+	}
 	err, done := p.enter("Update")
 	defer done()
 	p.rec(PoolCall{Method: "Update", Update: req, Err: err})
